@@ -465,6 +465,11 @@ func famTails(r *rand.Rand, idx int) caseInput {
 	switch endKind {
 	case 0:
 		e.emit("ret")
+		if r.Intn(2) == 0 {
+			for i := 2 + r.Intn(8); i > 0; i-- {
+				e.aluOp() // text after the return
+			}
+		}
 	case 2:
 		l := e.newLabel()
 		e.emit("j %s", l)
@@ -627,7 +632,13 @@ func famStressTerm(r *rand.Rand, idx int) caseInput {
 	}
 	switch r.Intn(5) {
 	case 0:
+		if r.Intn(2) == 0 {
+			e.emit("lw %s, %d(%s)", e.reg(), 4*r.Intn(16), pick(r, e.ar)) // a slow load right before the return
+		}
 		e.emit("ret")
+		for i := r.Intn(10); i > 0; i-- {
+			e.aluOp() // text after the return
+		}
 	case 1:
 		l := e.newLabel()
 		e.emit("%s", pick(r, []string{"j " + l, "beq zero, zero, " + l, "bgeu zero, zero, " + l}))
